@@ -362,6 +362,54 @@ theorem known_of_not_last (e : Env) (dest : Nat) (P : List Nat) (x y : Nat) (Q :
   have := ancestors_pre e dest P x y Q h
   exact block_known_of_pre e x (by rw [this]; simp)
 
+/-- **the pointer's chain along the apply loop.** The loop is run on a prefix `L` of the blocks that lead from `lca` up to
+`dest`, from a state standing on `lca`: in every outcome the pointer's chain is the applied blocks, newest first, on top of
+the chain of `lca`. -/
+theorem todoAll_chain (e : Env) (ht : TreeOK e) (lh : Int) (dest lca : Nat) (r L B : List Nat) (st : St)
+    (hda : ancestors e (e.blocks.length + 1) dest = (L ++ B).reverse ++ lca :: r)
+    (hst : ancestors e (e.blocks.length + 1) st.pointer = lca :: r) :
+    ancestors e (e.blocks.length + 1) (walk.todoAll e lh L st).1.pointer =
+      (todoApplied e lh L st).reverse ++ lca :: r := by
+  rw [todoAll_pointer_applied]
+  obtain ⟨T2, hT, _⟩ := todoApplied_prefix e lh L st
+  generalize todoApplied e lh L st = T1 at hT ⊢
+  rcases List.eq_nil_or_concat T1 with hnil | ⟨T1', bi, hcat⟩
+  · subst hnil
+    simp only [List.getLast?_nil, List.reverse_nil, List.nil_append]
+    exact hst
+  · rw [List.concat_eq_append] at hcat
+    subst hcat
+    have hl : (T1' ++ [bi]).getLast? = some bi := by simp
+    rw [hl]
+    simp only
+    -- the chain of the destination, split at the last applied block
+    have hda' : ancestors e (e.blocks.length + 1) dest =
+        (T2 ++ B).reverse ++ bi :: (T1'.reverse ++ lca :: r) := by
+      rw [hda, hT]; simp
+    obtain ⟨y, Q, hyQ⟩ : ∃ y Q, T1'.reverse ++ lca :: r = y :: Q :=
+      List.exists_cons_of_ne_nil (by simp)
+    have hknown : bi ∈ e.blocks.map (·.1) :=
+      known_of_not_last e dest (T2 ++ B).reverse bi y Q (by rw [hda', hyQ])
+    rw [ht.blockId bi hknown]
+    have := ancestors_tail_eq e ht.lower dest bi (T2 ++ B).reverse _ hda'
+    rw [← this]
+    simp
+
+/-- how the old chain splits at the undo list: `R` is the kept tail below it — empty when the two chains do not meet, else
+the chain of the lowest common ancestor, on which the chain of the destination stands too -/
+theorem undoTodo_kept (e : Env) (hpl : ParentLower e) (cur dest : Nat) :
+    ∃ R, ancestors e (e.blocks.length + 1) cur = (undoTodo e cur dest).1 ++ R ∧
+      (R = [] ∨ ∃ lca r, R = lca :: r ∧
+        ancestors e (e.blocks.length + 1) dest = (undoTodo e cur dest).2.reverse ++ lca :: r) := by
+  obtain ⟨_, _, hsplit⟩ := undoTodo_split e cur dest hpl
+  rcases hsplit with ⟨h1, _, _⟩ | ⟨lca, r1, r2, h1, h2, _⟩
+  · exact ⟨[], by rw [List.append_nil]; exact h1, Or.inl rfl⟩
+  · have a1 := ancestors_tail_eq e hpl dest lca _ r2 h2
+    have a2 := ancestors_tail_eq e hpl cur lca _ r1 h1
+    have hr : r2 = r1 := (List.cons.inj (a1.trans a2.symm)).2
+    subst hr
+    exact ⟨lca :: r2, h1, Or.inr ⟨lca, r2, rfl, h2⟩⟩
+
 /-- **the pointer's chain after the block part of a non-pruning walk, in EVERY outcome** (completed, undo refused at the
 irreversible height after any number of undone blocks, a block refused after any number of applied blocks): the old chain is
 `U ++ K`, the new chain is `T ++ K`; `U` — the blocks really undone — lies strictly above the irreversible height the walk
@@ -373,16 +421,9 @@ theorem walkCore_chain (e : Env) (ht : TreeOK e) (s : St) (lh : Int) (dest : Nat
       (K ≠ [] → T = (walkApplied e s lh dest false).reverse) := by
   have hpl := ht.lower
   unfold chainOf
-  obtain ⟨_, _, hsplit⟩ := undoTodo_split e s.pointer dest hpl
   have hp0 : (rolledBack e s).pointer = s.pointer := rolledBack_pointer e s
   have hi0 : (rolledBack e s).irrev = s.irrev := rolledBack_irrev e s
-  -- the kept tail `R` of the old chain below the undo list (empty when the two chains do not meet)
-  obtain ⟨R, hR, hRcase⟩ : ∃ R, ancestors e (e.blocks.length + 1) s.pointer = (undoTodo e s.pointer dest).1 ++ R ∧
-      (R = [] ∨ ∃ lca r1 r2, R = lca :: r1 ∧
-        ancestors e (e.blocks.length + 1) dest = (undoTodo e s.pointer dest).2.reverse ++ lca :: r2) := by
-    rcases hsplit with ⟨h1, _, _⟩ | ⟨lca, r1, r2, h1, h2, _⟩
-    · exact ⟨[], by rw [List.append_nil]; exact h1, Or.inl rfl⟩
-    · exact ⟨lca :: r1, h1, Or.inr ⟨lca, r1, r2, rfl, h2⟩⟩
+  obtain ⟨R, hR, hRcase⟩ := undoTodo_kept e hpl s.pointer dest
   obtain ⟨A1, A2, e1, e2, e3, e4, e5⟩ := undoAll_chain e hpl (undoTodo e s.pointer dest).1 R (rolledBack e s)
     (fun _ => by rw [hp0]; exact hR)
   rw [hi0] at e2
@@ -403,50 +444,13 @@ theorem walkCore_chain (e : Env) (ht : TreeOK e) (s : St) (lh : Int) (dest : Nat
     have hA2 : A2 = [] := e3 h1
     subst hA2
     rw [List.nil_append] at e5 hold
-    rcases hRcase with hRn | ⟨lca, r1, r2, hRl, hda⟩
+    rcases hRcase with hRn | ⟨lca, r, hRl, hda⟩
     · -- the chains do not meet: everything was undone, nothing is kept
       subst hRn
       exact ⟨A1, _, [], hold, by rw [List.append_nil], e2, fun h => absurd rfl h⟩
     · subst hRl
-      have hs1 := e5 (by simp)
-      -- the state after the undo loop stands on the lowest common ancestor
-      have hs1p : (walk.undoAll e false (undoTodo e s.pointer dest).1 (rolledBack e s)).1.pointer = lca := by
-        have := hs1
-        rw [ancestors_succ] at this
-        exact (List.cons.inj this).1
-      have hlca : lca :: r2 = lca :: r1 := by
-        have a1 := ancestors_tail_eq e hpl dest lca _ r2 hda
-        have a2 : lca :: r1 = ancestors e (e.blocks.length + 1) lca := by
-          have := hs1.symm
-          rw [hs1p] at this
-          exact this
-        exact a1.trans a2.symm
-      refine ⟨A1, _, lca :: r1, hold, ?_, e2, fun _ => rfl⟩
-      rw [todoAll_pointer_applied]
-      obtain ⟨T2, hT, _⟩ := todoApplied_prefix e lh (undoTodo e s.pointer dest).2
-        (walk.undoAll e false (undoTodo e s.pointer dest).1 (rolledBack e s)).1
-      generalize todoApplied e lh (undoTodo e s.pointer dest).2
-        (walk.undoAll e false (undoTodo e s.pointer dest).1 (rolledBack e s)).1 = T1 at hT ⊢
-      rcases List.eq_nil_or_concat T1 with hnil | ⟨T1', bi, hcat⟩
-      · subst hnil
-        simp only [List.getLast?_nil, List.reverse_nil, List.nil_append]
-        exact hs1
-      · rw [List.concat_eq_append] at hcat
-        subst hcat
-        have hl : (T1' ++ [bi]).getLast? = some bi := by simp
-        rw [hl]
-        simp only
-        -- the chain of the destination, split at the last applied block
-        have hda' : ancestors e (e.blocks.length + 1) dest =
-            T2.reverse ++ bi :: (T1'.reverse ++ lca :: r2) := by
-          rw [hda, hT]; simp
-        obtain ⟨y, Q, hyQ⟩ : ∃ y Q, T1'.reverse ++ lca :: r2 = y :: Q :=
-          List.exists_cons_of_ne_nil (by simp)
-        have hknown : bi ∈ e.blocks.map (·.1) := known_of_not_last e dest T2.reverse bi y Q (by rw [hda', hyQ])
-        rw [ht.blockId bi hknown]
-        have := ancestors_tail_eq e hpl dest bi T2.reverse _ hda'
-        rw [← this, hlca]
-        simp
+      refine ⟨A1, _, lca :: r, hold, ?_, e2, fun _ => rfl⟩
+      exact todoAll_chain e ht lh dest lca r _ [] _ (by rw [List.append_nil]; exact hda) (e5 (by simp))
 
 /-- the same for the walk of a history (with the skip list supplied for it): the re-submissions do not move the pointer -/
 theorem walk_chain (e : Env) (ht : TreeOK e) (s : St) (lh : Int) (dest : Nat) (skip : List Nat) :
@@ -473,6 +477,79 @@ theorem playForMiner_ok_chain (e : Env) (ht : TreeOK e) (s : St) (lh : Int) (bi 
   have hk := block_known_of_pre e bi (by rw [hpre]; simp)
   rw [hptr, ht.blockId bi hk]
   exact ancestors_child e ht.lower bi s.pointer hpre
+
+/-- the block part of a non-pruning walk keeps every irreversible block on the pointer's chain, in every outcome -/
+theorem walkCore_keeps_irreversible (e : Env) (ht : TreeOK e) (s : St) (lh : Int) (dest : Nat) (b : Nat)
+    (hb : b ∈ chainOf e s.pointer) (hh : ((e.block b).height : Int) ≤ s.irrev) :
+    b ∈ chainOf e (walkCore e s lh dest false).1.pointer := by
+  obtain ⟨U, T, K, h1, h2, h3, _⟩ := walkCore_chain e ht s lh dest
+  rw [h2]
+  rw [h1] at hb
+  rcases List.mem_append.mp hb with hU | hK
+  · have := h3 b hU
+    omega
+  · exact List.mem_append_right _ hK
+
+/-- **every write group of a non-pruning walk keeps every irreversible block on the pointer's chain**: whatever batch of
+the walk is the last one on disk when the process dies (after the roll-back of the pool, after any undone block, after any
+applied block, after any re-submission), the persisted pointer names a block whose chain contains every block of the old
+chain at or below the irreversible height the walk started with -/
+theorem walkTrace_keeps_irreversible (e : Env) (ht : TreeOK e) (s : St) (lh : Int) (dest : Nat) (b : Nat)
+    (hb : b ∈ chainOf e s.pointer) (hh : ((e.block b).height : Int) ≤ s.irrev)
+    (x : St) (hx : x ∈ walkTrace e s lh dest false) : b ∈ chainOf e x.pointer := by
+  have hpl := ht.lower
+  have hp0 : (rolledBack e s).pointer = s.pointer := rolledBack_pointer e s
+  have hi0 : (rolledBack e s).irrev = s.irrev := rolledBack_irrev e s
+  unfold walkTrace at hx
+  rcases List.mem_append.mp hx with hmid | hre
+  · obtain ⟨R, hR, hRcase⟩ := undoTodo_kept e hpl s.pointer dest
+    unfold chainOf at hb ⊢
+    rcases mem_walkMid e s lh dest false x hmid with rfl | ⟨A, B, hsplit, _, hrun⟩ | ⟨s1, A, B, hund, hsplit, _, hrun⟩
+    · rw [hp0]; exact hb
+    · -- after a completed prefix `A` of the undo loop
+      have hca : ancestors e (e.blocks.length + 1) s.pointer = A ++ (B ++ R) := by
+        rw [hR, hsplit, List.append_assoc]
+      obtain ⟨A1, A2, e1, e2, e3, _, e5⟩ := undoAll_chain e hpl A (B ++ R) (rolledBack e s)
+        (fun _ => by rw [hp0]; exact hca)
+      rw [hrun] at e3 e5
+      simp only at e3 e5
+      have hA2 : A2 = [] := e3 trivial
+      subst hA2
+      rw [List.append_nil] at e1
+      subst e1
+      rw [List.nil_append] at e5
+      rw [hi0] at e2
+      rw [hca] at hb
+      rcases List.mem_append.mp hb with hA | hBR
+      · have := e2 b hA
+        omega
+      · rw [e5 (List.ne_nil_of_mem hBR)]
+        exact hBR
+    · -- after a completed prefix `A` of the apply loop
+      obtain ⟨A1, A2, e1, e2, e3, _, e5⟩ := undoAll_chain e hpl (undoTodo e s.pointer dest).1 R (rolledBack e s)
+        (fun _ => by rw [hp0]; exact hR)
+      rw [hund] at e3 e5
+      simp only at e3 e5
+      have hA2 : A2 = [] := e3 trivial
+      subst hA2
+      rw [List.append_nil] at e1
+      rw [List.nil_append] at e5
+      rw [hi0, ← e1] at e2
+      rw [hR] at hb
+      rcases List.mem_append.mp hb with hU | hRm
+      · have := e2 b hU
+        omega
+      · rcases hRcase with hRn | ⟨lca, r, hRl, hda⟩
+        · rw [hRn] at hRm; cases hRm
+        · subst hRl
+          have hx' : x = (walk.todoAll e lh A s1).1 := by rw [hrun]
+          rw [hx', todoAll_chain e ht lh dest lca r A B s1 (by rw [← hsplit]; exact hda) (e5 (by simp))]
+          exact List.mem_append_right _ hRm
+  · obtain ⟨_, A, B, _, _, hxe⟩ := mem_walkRepost e s lh dest false x hre
+    rw [hxe]
+    unfold chainOf
+    rw [foldl_doTx_pointer]
+    exact walkCore_keeps_irreversible e ht s lh dest b hb hh
 
 /-- **one operation keeps every irreversible block on the pointer's chain**: a block that is on the chain of the pointer
 with a height at or below the irreversible height is on the chain of the pointer after any non-pruning operation -/
